@@ -61,7 +61,7 @@ def step (st : State) (line : String) : State × String :=
       | .restart o ep i => s!"R{E4.proxyStr o}#{ep}#{i.listen}|{i.upstream}|{i.enabled}"
       | .stopped o ep i => s!"S{E4.proxyStr o}#{ep}#{i.listen}|{i.upstream}|{i.enabled}"
       | .done r => s!"d{r.status}"
-    let txt := E4.stateStr st.c.s ++ toString st.c.epochs ++ toString st.c.zombies ++ toString st.c.locked ++
+    let txt := E4.stateStr st.c.s ++ toString st.c.epochs ++ toString st.c.zombies ++ toString st.c.locked ++ toString (st.c.dead.map fun d => (d.1, E4.proxyStr d.2)) ++
       " ".intercalate (st.reqs.map fun x => x.1 ++ "=" ++ phaseStr x.2.2)
     (st, toString (hash txt))
   | ["ports"] =>
